@@ -12,7 +12,7 @@ from fiddle._src import diffing
 from harness import common, l2, c02, c06
 from harness.common import Failure, Result, Stream, g_list, g_N, g_Z
 
-COQ_TARGETS = ["theories/C10Check.vo", "theories/Anchors.vo"]
+COQ_TARGETS = ["theories/C10Check.vo", "theories/AnchorsDiff.vo"]
 TRUSTED_BASE = ["the alignment heuristics (which depend on len(repr(value))) are not modelled: the Coq model covers "
                 "_apply_changes on resolved diffs; construction of the diff is decided by the round-trip oracle"]
 ASSUMPTIONS = []
